@@ -21,6 +21,8 @@ THEOREMS = {
             "tree_unobserved_arm", "tree_fit_empty_batch_arm"],
     "C13": ["ws_pairs_spec", "ws_target", "ws_untouched", "cold_arms_spec", "cold_not_trained", "coldToWarm_targets",
             "copyFold_get_target", "copyFold_get_other", "argminFirst_spec"],
+    "C14": ["fit_binarizer_once", "partialFit_binarizer_once", "binarize_spec", "binarize_noop_ctxBin", "np_binarize_once",
+            "addArm_new_binarizer", "tree_binarizer_twice_counterexample"],
     "C17": ["rejected_noop", "train_rejected_noop", "query_rejected_noop", "rejected_then_continue"],
 }
 
@@ -35,6 +37,7 @@ IMPORTS = {
     "C11": ["MabModel.Props.C11"],
     "C12": ["MabModel.Props.C12"],
     "C13": ["MabModel.Props.C13"],
+    "C14": ["MabModel.Props.C14"],
     "C17": ["MabModel.Props.C17"],
 }
 
